@@ -247,6 +247,70 @@ class Body:
                 if s["k"] == "assign":
                     yield i, j, s
 
+    def reaching_defs(self):
+        """block -> {local -> frozenset of definition points (bb, idx)} reaching the block's entry, for whole-local
+        definitions in live blocks (idx == len(stmts) for a call destination; (-1, a) for argument a)."""
+        rd = getattr(self, "_rd", None)
+        if rd is not None:
+            return rd
+        live = self.live_blocks()
+        gen = {}
+        for i in live:
+            b = self.blocks[i]
+            g = {}
+            for j, s in enumerate(b["stmts"]):
+                if s["k"] == "assign" and not s["place"]["p"]:
+                    g[s["place"]["l"]] = (i, j)
+            t = b["term"]
+            cd = None
+            if t["k"] == "call" and not t["dest"]["p"]:
+                cd = (t["dest"]["l"], (i, len(b["stmts"])), t.get("target"))
+            gen[i] = (g, cd)
+        ins = {i: None for i in live}
+        ins[0] = {a: frozenset([(-1, a)]) for a in range(1, self.argc + 1)}
+        work = deque([0])
+        while work:
+            i = work.popleft()
+            cur = ins[i]
+            g, cd = gen[i]
+            out = dict(cur)
+            for l, pt in g.items():
+                out[l] = frozenset([pt])
+            for sc in self.succs(i, True):
+                if sc not in live:
+                    continue
+                o = out
+                if cd is not None and sc == cd[2]:
+                    o = dict(out)
+                    o[cd[0]] = frozenset([cd[1]])
+                old = ins[sc]
+                if old is None:
+                    ins[sc] = dict(o)
+                    work.append(sc)
+                    continue
+                changed = False
+                for l, v in o.items():
+                    if l not in old:
+                        old[l] = v
+                        changed = True
+                    elif not v <= old[l]:
+                        old[l] = old[l] | v
+                        changed = True
+                if changed:
+                    work.append(sc)
+        self._rd = {i: (v or {}) for i, v in ins.items()}
+        return self._rd
+
+    def reaching_at(self, local, bb, idx):
+        """definition points of `local` reaching program point (bb, idx) (before statement idx)"""
+        last = None
+        for j, s in enumerate(self.blocks[bb]["stmts"][:idx]):
+            if s["k"] == "assign" and not s["place"]["p"] and s["place"]["l"] == local:
+                last = (bb, j)
+        if last is not None:
+            return frozenset([last])
+        return self.reaching_defs().get(bb, {}).get(local, frozenset())
+
     def defs_of(self, local):
         """All definitions of a whole local: ('assign', bb, idx, rv) | ('call', bb, term) | ('arg',)"""
         if self._defs is None:
@@ -331,6 +395,67 @@ def callee_matches(callee, *pats):
     return False
 
 
+def _decide_switches(path, raw_body):
+    """Rewrite `switch discriminant(x)` into its one feasible arm when the single definition of x reaching the switch is an
+    aggregate of a known variant (what remains after desugaring / inlining / threading).  Returns the number rewritten."""
+    from .sym import Sym
+    total = 0
+    for _round in range(6):
+        b = Body(path, raw_body)
+        s = Sym(b)
+        live = b.live_blocks()
+        todo = []
+        for i in sorted(live):
+            t = b.term(i)
+            if t["k"] != "switch" or t.get("threaded_switch") or t.get("on_ty") == "bool":
+                continue
+            e = s.switch_on(i)
+            if e[0] != "discr" or e[1][0] != "agg" or not e[1][2]:
+                continue
+            p = op_place(t["on"])
+            vm = None
+            if p is not None:
+                for dd in b.defs_of(p["l"]):
+                    if dd[0] == "assign" and "discr" in dd[3] and dd[3].get("variants"):
+                        vm = {int(k): v for k, v in dd[3]["variants"].items()}
+            if not vm:
+                continue
+            vals = [k for k, v in vm.items() if v == e[1][2]]
+            if len(vals) != 1:
+                continue
+            tgt = dict((v, x) for v, x in t["targets"]).get(vals[0], t["otherwise"])
+            todo.append((i, vals[0], tgt))
+        if not todo:
+            break
+        raw_body["blocks"].append({"cleanup": False, "stmts": [], "term": {"k": "unreachable"}, "decided": True})
+        dead = len(raw_body["blocks"]) - 1
+        for i, v, tgt in todo:
+            t = raw_body["blocks"][i]["term"]
+            raw_body["blocks"][i]["term"] = {"k": "switch", "on": t["on"], "on_ty": t.get("on_ty"), "targets": [[v, tgt]], "otherwise": dead, "span": t.get("span"),
+                                             "threaded_switch": True, "decided": True}
+        total += len(todo)
+    return total
+
+
+_RULE_WORDS = None
+
+
+def _rule_words():
+    """identifiers that occur in the rule sources: a function whose name is among them may be an anchor"""
+    global _RULE_WORDS
+    if _RULE_WORDS is None:
+        import glob, re
+        root = os.path.dirname(os.path.dirname(os.path.abspath(__file__)))
+        words = set()
+        for f in glob.glob(os.path.join(root, "rules", "*.py")) + [os.path.join(root, "check")]:
+            try:
+                words |= set(re.findall(r"[A-Za-z_][A-Za-z0-9_]*", open(f).read()))
+            except OSError:
+                pass
+        _RULE_WORDS = words
+    return _RULE_WORDS
+
+
 class Facts:
     def __init__(self, path):
         with open(path) as f:
@@ -341,7 +466,29 @@ class Facts:
         changed = canon.changed_functions(d) if os.environ.get("REPE_NO_CANON") != "1" else set()
         self.changed_functions = changed
         self.canon_report = canon.apply(d) if os.environ.get("REPE_NO_CANON") != "1" else {"fields": [], "args": [], "fns": []}
-        self.inline_report = inline.apply(d) if os.environ.get("REPE_NO_INLINE") != "1" else {"new_functions": [], "inlined": [], "skipped": []}
+        # Option/Result combinators that a changed function did not use on the reference tree become the match they stand for
+        self.desugared = []
+        if changed and os.environ.get("REPE_NO_INLINE") != "1" and os.environ.get("REPE_NO_DESUGAR") != "1":
+            from . import combinators
+            shapes_ = canon.load_known() or {}
+            if "combinators" in shapes_:
+                self.desugared = combinators.apply(d, canon.changed_functions(d), shapes_["combinators"])
+        # a reference-tree helper that no rule names and whose body changed is treated like a new helper: callers are judged
+        # on what it does now, not on what the rules' derived summaries assumed of the reference body
+        known_ = inline.load_known()
+        self.reinlined = []
+        if known_ is not None and changed and os.environ.get("REPE_NO_INLINE") != "1":
+            post = canon.changed_functions(d)
+            names_ = _rule_words()
+            drop = {p_ for p_ in post if p_ in known_ and "{closure" not in p_ and p_.rsplit("::", 1)[-1] not in names_
+                    and d["bodies"][p_]["kind"] in ("fn", "method") and not p_.startswith("<")}
+            if drop:
+                known_ = set(known_) - drop
+                self.reinlined = sorted(drop)
+        self.inline_report = inline.apply(d, known_) if os.environ.get("REPE_NO_INLINE") != "1" else {"new_functions": [], "inlined": [], "skipped": []}
+        self.devirtualised = 0
+        if self.inline_report.get("inlined"):
+            self.devirtualised = inline.devirtualise_polls(d, sorted({c_ for _, c_ in self.inline_report["inlined"]}))
         # functions that differ from the reference tree get one more normalisation: intra-procedural jump threading of
         # known Result/Option variants (error handling folded into one local that is tested later, etc.)
         self.threaded = {}
@@ -352,6 +499,15 @@ class Facts:
                     n_ = inline.thread_known_variants(b_)
                     if n_:
                         self.threaded[p_] = n_
+        # ... and switches that test a value whose only reaching definition builds a known variant are decided
+        self.decided = {}
+        if changed and os.environ.get("REPE_NO_INLINE") != "1":
+            touched = set(self.threaded) | {p_ for p_, _ in self.desugared} | {c_ for _, c_ in self.inline_report.get("inlined", [])}
+            for p_ in sorted(touched):
+                if p_ in d["bodies"]:
+                    n_ = _decide_switches(p_, d["bodies"][p_])
+                    if n_:
+                        self.decided[p_] = n_
         self.features = d["features"]
         self.adts = d["adts"]
         self.impls = d["impls"]
@@ -359,6 +515,9 @@ class Facts:
         self.consts = d["consts"]
         self.missing = d["missing_bodies"]
         self.bodies = {k: Body(k, v) for k, v in d["bodies"].items()}
+        for p_ in (set(changed) | (canon.changed_functions(d) if changed else set())):
+            if p_ in self.bodies:
+                self.bodies[p_].changed = True     # source-level variables may be resolved by reaching definitions here (analysis/sym.py)
         self._callers = None
 
     def body(self, path):
